@@ -1035,10 +1035,8 @@ def dim(x: list, ctx: Context = REAL):
         else:
             break
 
-    if ctx is None:
-        return Float.from_int(dim)
-    else:
-        return ctx.round(dim)
+    # an exact integer count: never rounded under the active context
+    return Float.from_int(dim)
 
 def size(x: list, dim: Real, ctx: Context = REAL):
     """
@@ -1046,21 +1044,16 @@ def size(x: list, dim: Real, ctx: Context = REAL):
 
     Assumes that `x` is not a ragged tensor.
     """
+    # the result is an exact integer count: never rounded under the active context
     dim = _cvt_to_float(dim)
     if dim.is_zero():
         # size(x, 0) = len(x)
-        if ctx is None:
-            return Float.from_int(len(x))
-        else:
-            return ctx.round(len(x))
+        return Float.from_int(len(x))
     else:
         # size(x, n) = size(x[0], n - 1)
         for _ in range(int(dim)):
             x = x[0]
-        if ctx is None:
-            return Float.from_int(len(x))
-        else:
-            return ctx.round(len(x))
+        return Float.from_int(len(x))
 
 #############################################################################
 # Tuple
